@@ -9,7 +9,7 @@
 From Coq Require Import ZArith Reals List Bool.
 From PW Require Import Num NumR Vec NpList Result.
 From PW.model Require Import M_polyline_base M_polyline_spec M_polyline_ops.
-From PW.proofs Require Import P_polyline_ops.
+From PW.proofs Require Import P_polyline_insert P_polyline_ops.
 Import ListNotations.
 
 (* edges always join consecutive vertices, plus last-to-first exactly when closed (every n) *)
@@ -47,12 +47,11 @@ Proof. exact len_refines. Qed.
 Theorem C09_aligned_with_refines_spec_partial : forall (p : polyline R) v,
   pclosed p = true \/ (length (pv p) < 2)%nat -> c_aligned ROps p v = s_aligned ROps p v.
 Proof. exact aligned_refines_degenerate. Qed.
-(* with_insertions (fixed code: stable argsort, scatter, searchsorted): vertices and both index maps equal the
-   specification for all 0..5 vertices and all index vectors of length 0..4 over 0..num_v (repeats included),
-   by computation. MISSING: the same for unbounded sizes (sorting-based code shape = counting specification) *)
-Theorem C09_insert_refines_small_partial :
-  forallb (fun n => forallb (fun k => forallb (insert_agrees n) (all_lists (seq 0 (S n)) k)) (seq 0 5)) (seq 0 6) = true.
-Proof. exact insert_refines_small. Qed.
+(* with_insertions (fixed code: stable argsort, scatter of positions, searchsorted side="right", np.insert's fill):
+   the new vertices and BOTH index maps equal the stable-insertion specification and its counting maps, for every
+   polyline, every number of points and every index vector (repeated / end / negative positions; errors by class) *)
+Theorem C09_with_insertions_refines_spec : forall (p : polyline R) pts idx, c_insert p pts idx = s_insert p pts idx.
+Proof. exact insert_refines. Qed.
 
 (* ---- what the specification says, declaratively ----------------------------------------------------------- *)
 (* rolled: for every integer k, new vertex i is old vertex (i + k) mod n, and the edge mapping is that index;
@@ -131,7 +130,7 @@ Proof. cbn. repeat split; reflexivity. Qed.
 Definition C09_all := (C09_edges_spec, C09_constructor_refines_spec, C09_flipped_refines_spec, C09_rolled_refines_spec,
   C09_sliced_at_indices_refines_spec, C09_sectioned_refines_spec, C09_join_refines_spec,
   C09_index_of_vertex_refines_spec, C09_apex_refines_spec, C09_bounding_box_refines_spec,
-  C09_len_num_v_num_e_refine_spec, C09_aligned_with_refines_spec_partial, C09_insert_refines_small_partial,
+  C09_len_num_v_num_e_refine_spec, C09_aligned_with_refines_spec_partial, C09_with_insertions_refines_spec,
   C09_rolled_edge_mapping_partial, C09_index_of_vertex_lowest, C09_apex_is_max, C09_bounding_box_encloses,
   C09_insert_original_vertices_map, C09_history_refines_spec_partial, C09_errors_leave_unchanged,
   C09_pool_only_grows, C09_undefined_operations_raise).
